@@ -94,14 +94,67 @@ func (vc *VC) call(st *State, v *ssa.Call, c *ssa.CallCommon) error {
 	key := funcKey(callee)
 	vc.callOrd[key]++
 	ord := vc.callOrd[key]
-	if spec := vc.cs.Funcs[key]; spec != nil {
-		return vc.callContract(st, resV, c, callee, spec, ord)
+	if err := vc.siteAsserts(st, "call", key, ord, "before", c.Args, nil); err != nil {
+		return err
 	}
-	if vc.isDropped(callee) {
+	if spec := vc.cs.Funcs[key]; spec != nil {
+		if err := vc.callContract(st, resV, c, callee, spec, ord); err != nil {
+			return err
+		}
+	} else if vc.isDropped(callee) {
 		vc.droppedCall(st, resV, callee, c)
+	} else {
+		vc.unknownCall(st, resV, c, "call of "+key+" (no contract)")
+	}
+	return vc.siteAsserts(st, "call", key, ord, "after", c.Args, resV)
+}
+
+// siteAsserts generates the obligations (or assumptions) attached to a semantic anchor: the ord-th static call
+// of callee key in source order. The expression sees the function's parameters, its named locals, the
+// call's arguments as arg0.. (receiver first) and, after the call, its results as ret0.. / ret.
+func (vc *VC) siteAsserts(st *State, kind, anchor string, ord int, when string, args []ssa.Value, resV ssa.Value) error {
+	if vc.spec == nil {
 		return nil
 	}
-	vc.unknownCall(st, resV, c, "call of "+key+" (no contract)")
+	for _, ss := range vc.spec.Sites {
+		if ss.AnchorKind != kind || ss.Anchor != anchor || (ss.N != 0 && ss.N != ord) || ss.When != when {
+			continue
+		}
+		vc.siteHits[ss]++
+		env := vc.baseEnv(st)
+		vc.localVars(st, env.vars, nil)
+		for i, a := range args {
+			env.vars[fmt.Sprintf("arg%d", i)] = Val{T: vc.val(st, a), S: vc.sortOf(a.Type()), Ty: a.Type()}
+		}
+		if resV != nil && when == "after" {
+			if tup, ok := vc.tuples[resV]; ok {
+				rt := resV.Type().(*types.Tuple)
+				for i, t := range tup {
+					env.vars[fmt.Sprintf("ret%d", i)] = Val{T: t, S: vc.sortOf(rt.At(i).Type()), Ty: rt.At(i).Type()}
+				}
+			} else if t, ok := vc.vals[resV]; ok {
+				env.vars["ret"] = Val{T: t, S: vc.sortOf(resV.Type()), Ty: resV.Type()}
+				env.vars["ret0"] = env.vars["ret"]
+			}
+		}
+		t, err := env.compileBool(ss.Clause.E)
+		if err != nil {
+			return fmt.Errorf("%s: site %s %s#%d: %v", vc.key, kind, anchor, ord, err)
+		}
+		if ss.IsAssume {
+			vc.assume(st, t)
+			vc.assumedUse[fmt.Sprintf("assume at %s %s#%d in %s: %s", kind, anchor, ord, vc.key, ss.Clause.Text)] = true
+			continue
+		}
+		name := fmt.Sprintf("site@%s(%s)#%d", kind, anchor, ord)
+		if ss.Clause.Label != "" {
+			name += "[" + ss.Clause.Label + "]"
+		}
+		if when == "after" {
+			name += ".after"
+		}
+		vc.oblige(st, name, "site", t, ss.Clause.Text, ss.Clause.Props)
+	}
 	return nil
 }
 
@@ -354,7 +407,23 @@ func (vc *VC) callContractGeneric(st *State, resV ssa.Value, c *ssa.CallCommon, 
 		calleePkg = named.Obj().Pkg()
 	}
 	vars := map[string]Val{}
-	if !isInvoke {
+	if !isInvoke && len(params) == 0 && len(args) > 0 {
+		// function without a built body (outside the module): parameter names from the signature
+		var ps []*types.Var
+		if sig.Recv() != nil {
+			ps = append(ps, sig.Recv())
+		}
+		for i := 0; i < sig.Params().Len(); i++ {
+			ps = append(ps, sig.Params().At(i))
+		}
+		for i, p := range ps {
+			if i < len(args) {
+				v := Val{T: vc.val(st, args[i]), S: vc.sortOf(p.Type()), Ty: p.Type()}
+				vars[p.Name()] = v
+				vars["old:"+p.Name()] = v
+			}
+		}
+	} else if !isInvoke {
 		for i, p := range params {
 			if i < len(args) {
 				v := Val{T: vc.val(st, args[i]), S: vc.sortOf(p.Type()), Ty: p.Type()}
@@ -461,14 +530,20 @@ func (vc *VC) havocTargets(st, pre *State, envPre *Env, tgts []Target, key strin
 			return nil
 		}
 		var comps map[string]string
-		if t.Kind == "typefield" {
+		if t.Kind == "typefield" || t.Kind == "typefieldcontents" {
 			ty, _ := envPre.lookupTypeSafe(t.X.(*EIdent).Name)
 			if ty == nil {
 				return fmt.Errorf("%s: assigns of %s: unknown type %s", vc.key, key, t.Src)
 			}
 			ms := newModSet()
-			if i, ok := fieldIndexByName(ty, t.Sel); ok {
+			i, ok := fieldIndexByName(ty, t.Sel)
+			if !ok {
+				return fmt.Errorf("%s: target-exists: %s of %s", vc.key, t.Src, key)
+			}
+			if t.Kind == "typefield" {
 				vc.msField(ms, ty, i)
+			} else {
+				vc.contentsMods(ms, ty.Underlying().(*types.Struct).Field(i).Type())
 			}
 			comps = ms.comps
 		} else {
@@ -530,7 +605,7 @@ func (vc *VC) havocTargets(st, pre *State, envPre *Env, tgts []Target, key strin
 		u := ups[comp]
 		cur := vc.heapGet(pre, comp, u.sort)
 		if u.all || !strings.HasPrefix(u.sort, "(Array Int ") {
-			if vc.spec.HasAssigns {
+			if vc.spec.HasAssigns && !vc.callerAllowsAll(comp) {
 				vc.assignsOb(st, "false", "call of "+key+" writes all of "+comp)
 			}
 			st.heap[comp] = vc.declare(comp+"_call", u.sort)
@@ -557,4 +632,21 @@ func (vc *VC) havocTargets(st, pre *State, envPre *Env, tgts []Target, key strin
 	// relevant for components we did not list; fresh objects are unreachable from the old heap.
 	vc.assumeGlobals(st)
 	return nil
+}
+
+// callerAllowsAll: the function under verification declares a target that covers every object of comp.
+func (vc *VC) callerAllowsAll(comp string) bool {
+	env := vc.baseEnv(vc.entry)
+	for _, t := range vc.spec.Assigns {
+		refs, err := vc.targetRefs(env, t, comp)
+		if err != nil {
+			continue
+		}
+		for _, r := range refs {
+			if r == "*" {
+				return true
+			}
+		}
+	}
+	return false
 }
